@@ -257,6 +257,13 @@ def run(cx):
                     if [v[3] for v in walk(bo_.of_operand(x.args[0])) if v[0] == "call" and name_matches(v[1], "ClientConfig::new")] == [c.bb]]
             ok = len(sets) == 1 and all(bdy.dominates(sets[0].bb, r) for r in bdy.return_blocks() if c.bb in bdy.dominators().get(r, set()))
             if ok:
+                # ... applied to the config itself, not to a copy that is then thrown away (`with_transport(&cfg, ..); cfg`)
+                rcv = bo_.of_operand(sets[0].args[0])
+                while rcv[0] in ("ref", "deref"):
+                    rcv = rcv[1]
+                # the object the setter ran on is (part of) what the function hands back
+                ok = any(x_ == rcv for x_ in walk(bo_.of_local(0)))
+            if ok:
                 tc = bo_.of_operand(sets[0].args[1])
                 ok = (mentions_field(tc, "transport_config") and mentions_param(tc, "self")) or is_param(tc, "transport_config")
             ob.require(ok, f"client-config/transport-installed/{owner_path(prog, bdy)}",
